@@ -183,7 +183,7 @@ def physical_elements(elems, how, junk):
     return list(elems)
 
 
-def run_family(rep, acc, kind, elements, boxes, tag, junk, chunk=256, batch=160,
+def run_family(rep, acc, kind, elements, boxes, tag, junk, chunk=64, batch=320,
                scalar_boxes=16, scalar_stride=1, oracle_stride=0, classify_stride=0,
                subtypes=G.SUBTYPES, both_every=4):
     """one enumeration family: every element x every box, through all forms"""
@@ -398,28 +398,28 @@ def families(rep, tier):
     # ---- lines: all polylines of <= 3 vertices (thorough: + 4-vertex sample)
     lines = [None, []] + U.polylines(ev, 3)
     if not quick:
-        extra = [U.flat([rng.choice(P) for _ in range(4)]) for _ in range(30000)]
+        extra = [U.flat([rng.choice(P) for _ in range(4)]) for _ in range(12000)]
         lines += extra
     lbox = box_mix(rng, posL, degL, 40 if quick else 1377, rev_every=4 if quick else 1)
     yield 'line', lines, lbox, 'polylines<=3', [[1, 1, 5, 3], None, []], \
-        dict(oracle_stride=23 if quick else 5, classify_stride=101, scalar_boxes=6 if quick else 24)
+        dict(oracle_stride=23 if quick else 11, classify_stride=101, scalar_boxes=6 if quick else 12)
     # ---- rings: closed polylines a-b-c-a (incl. degenerate), RingArray
     tri = [U.flat([a, b, c, a]) for a in P for b in P for c in P]
     if quick:
-        tri = rng.sample(tri, 768)
+        tri = rng.sample(tri, 512)
     rings = [None, []] + tri
     yield 'ring', rings, box_mix(rng, posL, degL, 60, rev_every=3), 'closed-triangles', [[1, 1, 5, 3, 1, 1], None], \
         dict(oracle_stride=29, classify_stride=211, scalar_boxes=6)
     # ---- multilines: 1-3 lines of 1-2 vertices, with an empty line among them
     segs = U.polylines(ev, 2)
     ml = [None, [], [[0, 0, 6, 6]], [[0, 0, 6, 6], []], [[], [0, 6, 6, 0]]]
-    for _ in range(900 if quick else 20000):
+    for _ in range(900 if quick else 6000):
         k = rng.choice([1, 2, 2, 3])
         e = [rng.choice(segs) for _ in range(k)]
         if rng.random() < .1:
             e.insert(rng.randrange(len(e) + 1), [])
         ml.append(e)
-    ml += [[U.flat([rng.choice(P) for _ in range(3)]) for _ in range(2)] for _ in range(300 if quick else 5000)]
+    ml += [[U.flat([rng.choice(P) for _ in range(3)]) for _ in range(2)] for _ in range(300 if quick else 2000)]
     yield 'multiline', ml, box_mix(rng, posL[::2] if quick else posL, degL, 60, rev_every=3), 'multilines', [[[1, 1, 5, 3]], None, []], \
         dict(oracle_stride=31, classify_stride=307, scalar_boxes=6)
 
@@ -433,7 +433,7 @@ def families(rep, tier):
         polys.append([U.close(r, cw=False, rot=k)])
         polys.append([U.close(r, cw=True, rot=k + 1)])
     yield 'polygon', polys, box_mix(rng, posP, degP, 40, rev_every=4), 'simple-rings-3x3', \
-        [[[1, 1, 5, 1, 5, 5, 1, 1]], None, []], dict(oracle_stride=3 if quick else 1, classify_stride=53,
+        [[[1, 1, 5, 1, 5, 5, 1, 1]], None, []], dict(oracle_stride=3 if quick else 2, classify_stride=53,
                                                     scalar_boxes=8)
     # ---- polygons with one hole: shell around [0,8]^2, hole on the sub-grid, boxes on -1..9
     shells = [[(0, 0), (8, 0), (8, 8), (0, 8)],
@@ -465,7 +465,7 @@ def families(rep, tier):
     if quick:
         hb = hb[::2] if rep.seed % 2 else hb[1::2]
     yield 'polygon', [None, []] + holed, hb, 'shell+hole', [[[1, 1, 5, 1, 5, 5, 1, 1]], None, []], \
-        dict(oracle_stride=4 if quick else 1, classify_stride=97, scalar_boxes=8, chunk=192)
+        dict(oracle_stride=4 if quick else 2, classify_stride=97, scalar_boxes=8)
 
     # ---- multipolygons: 1 part, 2 parts (disjoint / touching / overlapping), part inside a hole
     mp = [None, [], [[U.close(R[0])], []]]
@@ -477,7 +477,7 @@ def families(rep, tier):
         a, b = rng.choice(R), rng.choice(R)
         mp.append([[U.close(a, cw=rng.random() < .5)], [U.close(b, cw=rng.random() < .5)]])
     yield 'multipolygon', mp, box_mix(rng, posP, degP, 40, rev_every=4), 'multipolygon-1-2-parts', \
-        [[[[1, 1, 5, 1, 5, 5, 1, 1]]], None, []], dict(oracle_stride=5 if quick else 1, classify_stride=89,
+        [[[[1, 1, 5, 1, 5, 5, 1, 1]]], None, []], dict(oracle_stride=5 if quick else 3, classify_stride=89,
                                                       scalar_boxes=8)
     # nested: big shell with a big hole, second part strictly inside the hole (grid 0..12)
     inner = U.simple_rings([4, 6, 8], (3, 4))
@@ -520,9 +520,9 @@ CORPUS = [
 def run(rep):
     tier = getattr(rep, 'tier_run', rep.tier)
     rep._c01_nviol, rep._c01_pairs, rep._c01_scalar, rep._c01_oracle = {}, 0, 0, 0
-    rep.rule = ('one case = one real array (<= 256 elements, one of 5 subtypes, plain / sliced / rotated-'
-                'concatenated / reversed-taken buffers) x a batch of <= 160 boxes, evaluated through '
-                'intersects_bounds(box) and intersects_bounds(box, inds) and by the Coq model on the exported '
+    rep.rule = ('one case = one real array (<= 64 elements, one of 5 subtypes, plain / sliced / rotated-'
+                'concatenated / reversed-taken buffers) x a batch of <= 320 boxes, evaluated through '
+                'intersects_bounds(box) (every 4th batch also intersects_bounds(box, inds)) and by the Coq model on the exported '
                 'buffers; families: all points / multipoints of <= 2 points on {0,2,4,6}^2 x all 9^4 corner '
                 'pairs on -1..7; all polylines of <= 3 vertices x all 1296 positive boxes + reversed corners + '
                 'zero-extent boxes; closed triangles (RingArray); multilines; all simple 3-4-vertex rings on '
